@@ -202,6 +202,11 @@ func (w *rfWorld) resolver(ctx context.Context, released func()) (*rfVal, func()
 			// a resolver error that wraps a cancellation of something else: an error result like any other
 			gen.errF = fmt.Errorf("resolve-error-g%d: %w", gen.g, context.Canceled)
 		}
+		if gen.g%7 == 4 {
+			// the resolver's own sub-task was cancelled: the bare sentinel as the resolver's error, with everybody's context alive
+			gen.errF = context.Canceled
+			c.Count("resolver_bare_canceled_errors", 1)
+		}
 	case rfErrorWithRel, rfErrorWithRelAfterCancel:
 		gen.errF = fmt.Errorf("resolve-error-g%d", gen.g)
 		if gen.g%3 == 0 {
